@@ -42,7 +42,8 @@ func zzLen() int {
 		return zzChoice(zzBound("MAXLEN") + 1)
 	}
 	if zzBound("LENS") == 2 {
-		return 137
+		lens := [...]int{136, 137, 272}
+		return lens[zzChoice(len(lens))]
 	}
 	lens := [...]int{0, 1, 135, 136, 137, 271, 272, 273}
 	return lens[zzChoice(len(lens))]
@@ -68,8 +69,17 @@ func zzH_C04_oneshot() {
 func zzH_C04_chunking() {
 	m := zzMsg()
 	L := len(m)
-	i := zzChoice(L + 1)
-	j := i + zzChoice(L-i+1)
+	var i, j int
+	if zzBound("SPLITS") == 1 {
+		// split points at and around the block boundaries and the ends
+		pts := [...]int{0, 1, 135, 136, 137, 271, 272}
+		i = pts[zzChoice(len(pts))]
+		j = pts[zzChoice(len(pts))]
+		zzAssume(i <= j && j <= L)
+	} else {
+		i = zzChoice(L + 1)
+		j = i + zzChoice(L-i+1)
+	}
 	want := zzRefKeccak256(m)
 
 	h := NewLegacyKeccak256()
